@@ -217,7 +217,7 @@ class C12(Prop):
             if mode == "poly":
                 tol = 1e-8 * nrm * max(1.0, t) ** 5 * amp
             elif kind == "tdvp_vmf":
-                tol = 1e-4 * max(1.0, t) * nstep * nrm * amp
+                tol = 2e-6 * max(1.0, t) * nstep * nrm * amp
             else:
                 tol = 1.5e-5 * 6 * ctx.N * max(1.0, t) * nstep * nrm * amp
                 # no splitting error only for two single-basis nodes whose bond carries a COMPLETE basis of the smaller side (one-site
@@ -349,7 +349,7 @@ class C12(Prop):
         energies = optimize_ttns(x, ttno, proc)
         # direct solver: rounding.  Davidson (vendored PySCF routine, lindep 1e-14): its Ritz values are variational only up to
         # the loss of orthogonality it tolerates, ~sqrt(lindep) = 1e-7 (observed: -1.0000000104 for an exact -1, thorough seed 2)
-        tol = 1e-8 if case["algo"] != "davidson" else 1e-7
+        tol = 1e-8
         r.classes += [f"gs.algo.{case['algo']}"]
         r.nontrivial = int(mask.sum()) >= 4 and ctx.nontrivial()
         for k, e in enumerate(energies):
